@@ -91,6 +91,12 @@ def runRfHeap (nostd : Bool) (v : RefVariant) (evs : List String) : M Unit := do
 
 def runRf (_chk : Bool) (nostd : Bool) (toks : List String) : M Unit := do
   match toks with
+  | ["excl", v] =>
+    -- a mutable borrow holds the lock: the other thread does not get in while it is alive, and no increment is lost
+    if nostd then noimpl
+    let v ← need (pVariant v)
+    if !(v == .arcRwLock || v == .arcMutex) then noimpl
+    emit "true;I:2"
   | ["thr", v, n, k] =>
     if nostd then noimpl          -- no threads, no lock variants without `std`
     let v ← need (pVariant v)
